@@ -13,7 +13,8 @@ pub const WORDS: &[&str] = &[
     "sigma",
 ];
 pub const NUMBERS: &[&str] = &["2", "10", "9.5", "-3", "0", "7", "100", "3.25", "-10", "42"];
-pub const DIRS: &[&str] = &["a", "b", "src", "docs", "my dir", "v1.2", "lib", "pkg", "v1..v2"];
+// (`py`, `js`: directory names that are also grammar keys)
+pub const DIRS: &[&str] = &["a", "b", "src", "docs", "my dir", "v1.2", "lib", "pkg", "v1..v2", "py", "js"];
 pub const STEMS: &[&str] = &[
     "main", "util", "x", "mod", "data", "conf", "app", "b", "my file", "v2.conf", "a", "[id]", "{slug}", "odd\\name",
     "notes..old", "x,y",
@@ -874,7 +875,16 @@ impl<'a> Gen<'a> {
             return;
         };
         let r = render_file(&self.world.files[i], false);
-        let (line, edit) = self.random_edit(&r, line, &[]);
+        // a line replaced by an EMPTY line is a modified line too (its character-level difference is
+        // a pure deletion)
+        let blanks: Vec<usize> =
+            self.insert_candidates(i).into_iter().filter(|l| r.lines[*l - 1].is_empty()).collect();
+        let (line, edit) = if !blanks.is_empty() && self.rng.chance(1, 4) {
+            let l = *self.rng.pick(&blanks);
+            (l, LineEdit::Replaced { old: format!("gone{}", self.rng.below(1000)) })
+        } else {
+            self.random_edit(&r, line, &[])
+        };
         let mut more = Vec::new();
         // a second change further down: another hunk (or, with context lines, the same one)
         if self.rng.chance(2, 5) {
